@@ -101,6 +101,12 @@ impl HintInstance {
         }
     }
 
+    /// Returns true when hinting for a grayscale target with "ClearType
+    /// style" (subpixel) hinting, i.e. a smooth target that is not LCD.
+    pub fn is_grayscale_cleartype(&self) -> bool {
+        self.graphics.target.is_grayscale_cleartype()
+    }
+
     pub fn hint(
         &self,
         outlines: &Outlines,
